@@ -146,6 +146,38 @@ def _code_swaps(g, curt):
     return [x for x in out if x[1] != g]
 
 
+def _renumber(g, curt, n):
+    """unsigned non-zeroth gram g with its gram number replaced by n"""
+    from hio.help import helping
+    return (g[:3] + n.to_bytes(3, "big") + g[6:]) if curt else (g[:4] + helping.intToB64b(n, 4) + g[8:])
+
+
+def _beyond(code, curt, vid, n, rng=None):
+    """datagrams of a memo with count >= 3 where the last gram is present, a middle gram is missing and grams with
+    numbers BEYOND the count take the free slots (len(grams) >= count although the memo is incomplete).
+    Unsigned: neck of copies rewritten; signed: authentic grams of a longer memo with the same mid and signer."""
+    signed = code in mc.SIGNED
+    extra = 5
+    text = (MEMOS[2] if not curt else MEMOS[1]) if signed else MEMOS[1]
+    g = _grams(text, code, curt, vid, n, extra)
+    cnt = len(g)
+    assert cnt >= 3, cnt
+    if signed:
+        longer = _grams(text * 3, code, curt, vid, n, extra)
+        assert len(longer) > cnt + 1
+        stray = longer[cnt:cnt + 2 + (cnt - 3)]
+    else:
+        stray = [_renumber(g[1], curt, cnt + 1 + j) for j in range(cnt - 2)]
+    missing = 1 if rng is None else rng.randrange(1, cnt - 1)
+    keepers = [x for i, x in enumerate(g) if i != missing]
+    dg = [(keepers[0], 1)] + [(x, 1) for x in stray] + [(x, 1) for x in keepers[1:]]
+    if rng is not None and rng.random() < 0.5:
+        head, rest = dg[:1], dg[1:]
+        rng.shuffle(rest)
+        dg = (head if signed else []) + rest + ([] if signed else head)
+    return dg, g[missing]
+
+
 def _case(authic, dgrams, svc="all", kind="valid", keep="full"):
     """dgrams: list of (bytes, src).  svc: 'all' after every datagram | 'end' | 'once' | 'split'."""
     ops = []
@@ -227,6 +259,14 @@ def directed():
                 out.append(_case(True, [(m, 1), (gp[1], 1)], "all", "mut:" + lab))
             for lab, m in _pad_mutations(gp[1], "bAAC", curt, False):
                 out.append(_case(True, [(gp[0], 1), (m, 1)], "all", "mut:" + lab))
+    # gram numbers beyond the count while a middle gram is missing and the last one is present: must stay incomplete
+    # without raising on any later pass, and complete once the missing gram arrives
+    for code, curt, vid in cfgs:
+        n += 1
+        dg, late = _beyond(code, curt, vid, n)
+        for svc in ("all", "end"):
+            out.append(_case(code in mc.SIGNED, dg + [(late, 1)], svc, "mut:beyond count, middle missing"))
+            out.append(_case(False, dg, svc, "mut:beyond count, middle missing"))
     # unsigned gram to an authic receiver; signed gram to a non-authic receiver; empty datagram stops the loop
     gu = _grams(MEMOS[0], "bAAA", False, None, n + 2, 5)
     out.append(_case(True, [(gu[0], 1)], "all", "mut:unsigned to authic"))
@@ -290,6 +330,11 @@ def generate(rng, tier):
             rng.shuffle(dg)
             kind = "order"
         svc = rng.choice(["all", "all", "end", "once", "split"])
+        if rng.random() < 0.06 and (snd, rcv) == ("full", "full"):
+            dg, late = _beyond(code, curt, vid, 7000 + i, rng)
+            if rng.random() < 0.5:
+                dg = dg + [(late, 1)]
+            kind = "mut:beyond count, middle missing"
         if (snd, rcv) != ("full", "full"):
             kind = f"keep:{rcv}/{snd}," + kind
         out.append(_case(authic, dg, svc, kind, keep=rcv))
